@@ -265,6 +265,9 @@ func (c *Ctx) HarnessError(format string, a ...any) {
 
 // RequireFeature fails the run as vacuous if a mandatory feature counter is 0.
 func (c *Ctx) RequireFeature(names ...string) {
+	if c.expired.Load() {
+		return // a capped run reports exhaustive:false and what it covered; it is not vacuous
+	}
 	for _, n := range names {
 		if c.Get(n) == 0 {
 			c.HarnessError("vacuous:%s", n)
